@@ -51,6 +51,23 @@ func vC05Template(t int, h *vHoles) vC05Tmpl {
 		return vC05Tmpl{[]*vRef{n}, []string{"n"}, vBin(true, "&", vCmp(">=", vKeyRef(), &vRef{node: rText, text: []byte("a")}), vCmp("=", vArith("+", an(), an()), h.num())), dig, let}
 	case 13:
 		return vC05Tmpl{[]*vRef{n, l}, []string{"n", "l"}, vBin(false, "|", vCmp(">", an(), h.num()), vCmp(">", al(), vNumConst(1))), dig, let}
+	case 16, 17, 18, 19, 20, 21, 22: // alias of the bare key: every comparison, literal on the left
+		op := vOps7[t-16]
+		k := vKeyRef()
+		return vC05Tmpl{[]*vRef{k}, []string{"k"}, vCmp(op, h.text(), vAliasRef("k", k)), let, let}
+	case 23, 24, 25, 26, 27, 28, 29: // ... literal on the right
+		op := vOps7[t-23]
+		k := vKeyRef()
+		return vC05Tmpl{[]*vRef{k}, []string{"k"}, vCmp(op, vAliasRef("k", k), h.text()), let, let}
+	case 30:
+		k := vKeyRef()
+		return vC05Tmpl{[]*vRef{k}, []string{"k"}, vIn(vAliasRef("k", k), h.text(), h.text()), let, let}
+	case 31:
+		v := vValueRef()
+		return vC05Tmpl{[]*vRef{v}, []string{"v"}, vBin(true, "&", vCmp(">=", h.text(), vAliasRef("v", v)), vCmp("!=", vAliasRef("v", v), h.text())), let, let}
+	case 32:
+		k := vKeyRef()
+		return vC05Tmpl{[]*vRef{k, vFn("upper", vAliasRef("k", k))}, []string{"k", "u"}, vCmp("^=", vAliasRef("k", k), h.text()), let, let}
 	case 14: // three references; the second one feeds an operator that writes its result in place
 		return vC05Tmpl{[]*vRef{n}, []string{"n"}, vBin(true, "&", vBin(true, "&", vCmp(">", an(), vNumConst(0)), vCmp(">", vNumConst(6), vArith("*", an(), vNumConst(2)))), vCmp("<", an(), h.num())), "0123", let}
 	case 15:
@@ -59,7 +76,7 @@ func vC05Template(t int, h *vHoles) vC05Tmpl {
 	return vC05Tmpl{[]*vRef{n}, []string{"n"}, vCmp(">", an(), h.num()), dig, let}
 }
 
-const vNumC05 = 16
+const vNumC05 = 33
 
 func VN_C05(tier int) int { return vNumC05 }
 
